@@ -63,7 +63,12 @@ def run(chk):
     # eval-all on the same single document must give the same results (binary operators work per input node in
     # both drivers).  Top-level [..] is evaluated read-only by eval-all and writable by eval, so expressions with a
     # collect are left out of this comparison.
-    ea_idx = [i for i, (e, d) in enumerate(cases) if "collect" not in evalgen.ops_of(e) and impl[i].startswith(b"OK")]
+    # A union with a variable operand is left out as well: `$x , (empty as $x | $x)` hands the variable's own list
+    # back on both sides under eval-all only, which is the recorded finding union-same-list again.
+    def ea_ok(e):
+        ops = evalgen.ops_of(e)
+        return "collect" not in ops and not ("union" in ops and "var" in ops)
+    ea_idx = [i for i, (e, d) in enumerate(cases) if ea_ok(e) and impl[i].startswith(b"OK")]
     ea_req = [{"op": "eval", "expr": evalgen.render(cases[i][0]), "input": json.dumps(cases[i][1]), "in": "json", "out": "json", "indent": 0, "all": True} for i in ea_idx]
     ea_out = [evalgen.canon_impl(r) for r in vlib.yqh_parallel(ea_req)]
     nea = 0
